@@ -87,6 +87,14 @@ func c05Tok(v *V) string {
 	return s
 }
 
+// c05EnvTok: an environment value is taken verbatim - it may be a double
+// quote or any other printable byte (only the delimiter and ':' are excluded).
+func c05EnvTok(v *V) string {
+	s := v.String(1)
+	v.Assume(s[0] > ' ' && s[0] < 0x7f && s[0] != ',' && s[0] != ':')
+	return s
+}
+
 // H_C05_rank: one option, every subset of sources, symbolic values.
 func H_C05_rank(v *V) {
 	opt := v.Shape("opt")
@@ -103,7 +111,7 @@ func H_C05_rank(v *V) {
 	if envState == 2 && kind == 2 {
 		v.Assume(false) // an empty text is not a key:value entry
 	}
-	I, E1, E2, N1, N2, C1, C2 := c05Tok(v), c05Tok(v), c05Tok(v), c05Tok(v), c05Tok(v), c05Tok(v), c05Tok(v)
+	I, E1, E2, N1, N2, C1, C2 := c05Tok(v), c05EnvTok(v), c05EnvTok(v), c05Tok(v), c05Tok(v), c05Tok(v), c05Tok(v)
 	o := &c05Decl{}
 	var initV []string
 	switch kind {
